@@ -1,9 +1,203 @@
-"""apply_slice element selection (placeholder; see below)"""
+"""C01: element selection of `apply_slice` (values/index.rs) on slices of bounded length.
+
+The input is a slice of concrete length L (0..N) whose elements are their own source positions; start / stop /
+stride are symbolic (every i32, None or absent).  The std calls apply_slice is made of (`[T]::index(Range)`,
+`to_vec`, `reverse`, `into_iter().enumerate().filter_map(closure).collect()`) are contracts over sequences of
+positions; the repository's closure is executed once per position."""
+import itertools
+import time
+import z3
+
+from .common import (Obligation, Path, Enum, Struct, Ref, Opaque, Err, Slice, Unsupported, ret, fork2, SOME, NONE, OK, ERR, d, model_int, I32_MIN, I32_MAX)
+
+I32 = lambda x: z3.And(x >= I32_MIN, x <= I32_MAX)
+
+
+def concrete(t):
+    t = z3.simplify(t)
+    return t.as_long() if z3.is_int_value(t) else None
+
+
+def c_index_range(ex, st, args, path, callee):
+    """<[T] as Index<Range<usize>>>::index: panics if start > end or end > len; forks over the concrete bounds"""
+    sl = d(ex, args[0])
+    rng = args[1]
+    s, e = rng.fields[0], rng.fields[1]
+    L = concrete(sl.length)
+    if L is None or sl.elems is None:
+        raise Unsupported('slice indexing on a symbolic-length slice')
+    bad = path.add(z3.Or(s > e, e > L, s < 0))
+    if ex.feasible(bad.conds):
+        ex.add_panic(bad, 'slice index out of range (start > end or end > len)', callee)
+    out = []
+    for a in range(L + 1):
+        for b in range(a, L + 1):
+            p = path.add(z3.And(s == a, e == b))
+            if ex.feasible(p.conds):
+                out.append(('ret', Slice(z3.IntVal(b - a), list(sl.elems[a:b]), 'sub'), p))
+    return out
+
+
+def c_to_vec(ex, st, args, path, callee):
+    sl = d(ex, args[0])
+    return ret(Slice(sl.length, list(sl.elems), 'vec'), path)
+
+
+def c_vec_new(ex, st, args, path, callee):
+    return ret(Slice(z3.IntVal(0), [], 'vec'), path)
+
+
+def c_deref_mut(ex, st, args, path, callee):
+    return ret(args[0], path)
+
+
+def c_reverse(ex, st, args, path, callee):
+    r = args[0]
+    if not isinstance(r, Ref):
+        raise Unsupported('reverse of non-ref')
+    sl = ex.read_ref(st['mem'], r)
+    mem = dict(st['mem'])
+    st2 = dict(st)
+    st2['mem'] = mem
+    ex.write_ref(st2, r, Slice(sl.length, list(reversed(sl.elems)), 'vec'))
+    return [('ret', Struct([]), path, mem)]
+
+
+def c_into_iter(ex, st, args, path, callee):
+    return ret(d(ex, args[0]), path)
+
+
+def c_enumerate(ex, st, args, path, callee):
+    sl = args[0]
+    return ret(Slice(sl.length, [Struct([z3.IntVal(k), e]) for k, e in enumerate(sl.elems)], 'enumerate'), path)
+
+
+def c_filter_map(ex, st, args, path, callee):
+    return ret(Struct([args[0], args[1], callee], 'FilterMap'), path)
+
+
+def c_collect(ex, st, args, path, callee):
+    fm = args[0]
+    if not (isinstance(fm, Struct) and fm.ty == 'FilterMap'):
+        raise Unsupported('collect of ' + str(fm))
+    it, env, fcallee = fm.fields
+    f = ex.find_closure(fcallee)
+    states = [([], path, st['mem'])]
+    for item in it.elems:
+        nxt = []
+        for acc, p, mem in states:
+            mem2 = dict(mem)
+            ex._tmp = getattr(ex, '_tmp', 0) + 1
+            key = ('tmp', ex._tmp, 'env')
+            mem2[key] = env
+            for v, p2, m2 in ex.run(f, [Ref(key), item], p, 1, (), mem2):
+                if v.variant == 'Some':
+                    nxt.append((acc + [v.fields[0]], p2, m2))
+                else:
+                    nxt.append((acc, p2, m2))
+        states = nxt
+    return [('ret', Slice(z3.IntVal(len(acc)), acc, 'vec'), p, mem) for acc, p, mem in states]
+
+
+def c_is_multiple_of_concrete(ex, st, args, path, callee):
+    """u32::is_multiple_of(k, b) with concrete k: complete case split on b (b = 0, 1..k, > k)"""
+    a, b = args
+    k = concrete(a)
+    if k is None:
+        raise Unsupported('is_multiple_of with symbolic dividend in the selection closure')
+    out = []
+    cases = [(b == 0, z3.BoolVal(k == 0))] + [(b == j, z3.BoolVal(k % j == 0)) for j in range(1, k + 1)] + [(b > k, z3.BoolVal(k == 0))]
+    for c, v in cases:
+        p = path.add(c)
+        if ex.feasible(p.conds):
+            out.append(('ret', v, p))
+    return out
+
+
+SEQ = [
+    ('[T]::index(Range<usize>) on a sequence of positions (panics unless start <= end <= len)', r'^<\[T\] as (std::ops::)?Index<(std::ops::)?Range<usize>>>::index$', c_index_range),
+    ('[T]::to_vec = same sequence', r'^(std|core|alloc)::slice::<impl \[T\]>::to_vec$', c_to_vec),
+    ('Vec::new = empty sequence', r'^Vec::<T>::new$', c_vec_new),
+    ('Vec::deref_mut = the same sequence', r'^<Vec<T> as (std::ops::)?DerefMut>::deref_mut$', c_deref_mut),
+    ('[T]::reverse = reversed sequence', r'^(std|core)::slice::<impl \[T\]>::reverse$', c_reverse),
+    ('Vec::into_iter', r'^<Vec<T> as IntoIterator>::into_iter$', c_into_iter),
+    ('Iterator::enumerate', r'as Iterator>::enumerate$', c_enumerate),
+    ('Iterator::filter_map (lazy)', r'as Iterator>::filter_map::<', c_filter_map),
+    ('Iterator::collect::<Vec<T>> runs the repository closure once per position', r'as Iterator>::collect::<Vec<T>>$', c_collect),
+    ('u32::is_multiple_of(concrete k, b): case split on b', r'^core::num::<impl u32>::is_multiple_of$', c_is_multiple_of_concrete),
+]
 
 
 def run(sess):
-    return []
+    from . import c01
+    N = 6 if sess.tier == 'quick' else 8
+    obs = []
+    for L in range(N + 1):
+        for ks, ke, kt in itertools.product(('absent', 'int'), repeat=3):
+            t1 = time.time()
+            ob = Obligation(f'C01.apply_slice[len={L},{ks},{ke},{kt}]', 'xs[start:stop:stride] selects exactly the positions list(range(len))[start:stop:stride] selects in Python, in that order',
+                            f'sequence length {L}; every i32 / absent start, stop, stride')
+            try:
+                ex = sess.executor(True, extra=SEQ + c01.EXTRA)
+                (s_, sx, sc), (e_, exx, ec), (t_, tx, tc) = c01.opt_value(ks, 'start'), c01.opt_value(ke, 'stop'), c01.opt_value(kt, 'step')
+                xs = Slice(z3.IntVal(L), [z3.IntVal(i) for i in range(L)], 'input')
+                fn = ex.get_fn(sess.db.find(r'^fn (?:[\w:]*::)?apply_slice\(_1: &\[T\]'))
+                outs = ex.run(fn, [xs, s_, e_, t_], Path(sc + ec + tc))
+                ob.paths = len(outs)
+                step = tx if tx is not None else z3.IntVal(1)
+                Lz = z3.IntVal(L)
+                rs, re_ = c01.py_adjust(sx, step, Lz, True), c01.py_adjust(exx, step, Lz, False)
+
+                def wit(m):
+                    f = lambda k, t: 'absent' if k != 'int' else model_int(m, t)
+                    return {'kind': 'selection', 'len': L, 'start': f(ks, sx), 'stop': f(ke, exx), 'step': f(kt, tx)}
+                for v, p, m in outs:
+                    if v.variant == 'Err':
+                        c01.check_viol(sess, ob, p.conds, step != 0, [], wit)
+                        continue
+                    res = ex.deref(m, v.fields[0])
+                    got = res.elems
+                    n = len(got)
+                    # reference: positions rs, rs+step, ... while in (rs, re_) direction; at most L elements
+                    exp_len = c01.py_range_len(rs, re_, step)
+                    viol = [step == 0, exp_len != n] + [got[i] != rs + i * step for i in range(n)]
+                    c01.check_viol(sess, ob, p.conds, z3.Or(viol), [], wit)
+                c01.finish(sess, ob, ex, outs, t1, wit)
+            except Unsupported as e:
+                ob.inconclusive(f'unsupported MIR: {e}')
+                ob.wall_s = time.time() - t1
+                sess.add(ob)
+            except LookupError as e:
+                ob.inconclusive(f'function not found: {e}')
+                ob.wall_s = time.time() - t1
+                sess.add(ob)
+            obs.append(ob)
+    return obs
 
 
 def replay_witness(w, rp):
-    return {'reproduced': False, 'role': 'selection', 'detail': 'not implemented'}
+    L = w['len']
+    f = lambda v: '' if v == 'absent' else str(v)
+    sl = slice(*[None if w[x] == 'absent' else w[x] for x in ('start', 'stop', 'step')])
+    prog = f'list(range({L}))[{f(w["start"])}:{f(w["stop"])}:{f(w["step"])}]'
+    cases = [{'kind': 'eval', 'program': prog}, {'kind': 'eval', 'program': 'tuple(' + prog + ')'}]
+    try:
+        expect = str(list(range(L))[sl])
+    except ValueError:
+        expect = None
+    repro = False
+    got = {}
+    for profile in ('dev', 'release'):
+        res = rp.run(cases, profile)
+        got[profile] = res
+        for g in res:
+            if 'panic' in g or 'abort' in g:
+                repro = True
+            elif expect is None:
+                if 'err' not in g:
+                    repro = True
+            else:
+                gv = (g.get('ok') or '').replace('(', '[').replace(')', ']').replace(',]', ']')
+                if gv != expect:
+                    repro = True
+    return {'reproduced': repro, 'role': 'sequence slice selection', 'detail': f'{prog} expected {expect}; native {str(got)[:400]}', 'cases': cases}
